@@ -1,5 +1,6 @@
 import Norad.Lemmas.Kerning
 import Norad.Generated.KernConsts
+import Norad.Props.KernSource
 import Std.Data.String.ToNat
 /-!
 # C15 — kerning groups are validated, and legacy kerning is upconverted faithfully
@@ -415,5 +416,41 @@ theorem source_validate_iff (g : Groups) :
     exact ⟨fun e he => ⟨(h1 e he).1, (hm (fun q => e.1 ≠ q)).2 (h1 e he).2⟩, h2, h3⟩
   · rintro ⟨h1, h2, h3⟩
     exact ⟨fun e he => ⟨(h1 e he).1, (hm (fun q => e.1 ≠ q)).1 (h1 e he).2⟩, h2, h3⟩
+
+/-! ## the theorems above, stated of the regenerated passes
+
+`Kern.Gen.*` (`Norad/Generated/Upconv.lean`) is the statement-by-statement translation of `validate_groups`,
+`make_unique_group_name`, `find_known_kerning_groups` and `upconvert_kerning` made by `tools/extract_upconv.py` from the
+tree under check; `source_validate_eq_model` / `source_upconvert_eq_model` (`Props/KernSource.lean`) identify them with the
+model, so every theorem of this file rewrites into one about the regenerated code.  The ones the property names: -/
+
+/-- the validator of the source accepts exactly the valid maps -/
+theorem source_gen_validate_iff (g : Groups) : Gen.validateGroups g = .ok () ↔ KernSpec.ValidGroups g := by
+  rw [source_validate_eq_model]; exact validate_iff g
+
+/-- the conversion of the source never panics and its `while` ends (decimal counter, valid input names) -/
+theorem source_gen_upconvert_no_panic (g : Groups) (k : Kerning) (S : List Str)
+    (hv : ∀ n ∈ keys g, validName n = true) : ∃ o, Gen.upconvertKerning decimal g k S = .ok o := by
+  rw [source_upconvert_eq_model]; exact upconvert_no_panic_decimal g k S hv
+
+/-- the conversion of the source keeps every original group -/
+theorem source_gen_groups_kept {sfx : Nat → Str} {g : Groups} {k : Kerning} {S : List Str} {o : UpOut}
+    (h : Gen.upconvertKerning sfx g k S = .ok o) :
+    ∀ n, hasKey n g = true → lookup n o.groups = lookup n g := by
+  rw [source_upconvert_eq_model] at h
+  exact groups_kept (ord1 := sortDedup (firstSet g k S)) (ord2 := sortDedup (secondSet g k S)) h
+
+-- non-vacuity: the regenerated passes run (and agree with the model) on colliding inputs
+example : Gen.validateGroups [("public.kern1.A".toList, ["a".toList]), ("public.kern1.B".toList, ["a".toList])]
+    = .error .overlapping := by rfl
+example : Gen.validateGroups [("public.kern1.".toList, [])] = .error .invalidName := by rfl
+example : Gen.validateGroups [("public.kern1.A".toList, ["a".toList]), ("public.kern2.A".toList, ["a".toList])]
+    = .ok () := by rfl
+example : ∃ o, Gen.upconvertKerning decimal
+      [("@MMK_L_A".toList, ["a".toList]), ("A".toList, ["b".toList])] [("A".toList, [("x".toList, 1)])] [] = .ok o ∧
+      lookup "public.kern1.A".toList o.groups = some ["a".toList] ∧
+      lookup "public.kern1.A1".toList o.groups = some ["b".toList] ∧
+      lookup "public.kern1.A1".toList o.kerning = some [("x".toList, 1)] ∧
+      hasKey "@MMK_L_A".toList o.groups = true := ⟨_, rfl, rfl, rfl, rfl, rfl⟩
 
 end Kern
